@@ -144,8 +144,12 @@ PROPS = {
         "sweep": gen.c06_sweep_cases,
         "exhaustive_note": "sweep part: for each enumerated problem (1 in quick, 10 in thorough) EVERY (method, response class of that method's table, x kind) combination of the scripted peer, and the SLSQP-success-with-violation -> trust-constr retry crossed with every trust-constr class; exhaustive over the class table for those problems only",
         "level": "exploration",
-        "rule": _PEER_RULE + "  Oracle: status OPTIMAL => every constraint (harness-side Constraint.violation on the returned values) and every "
-        "declared bound holds within max(1e-5, 10*tol) + 1e-5*scale.",
+        "rule": _PEER_RULE + "  Further scenario kinds: parametric constraints with Parameter.set + re-solve, LPs whose constraints repeat declared bounds "
+        "that are relaxed later, badly scaled LPs (coefficients below HiGHS' 1e-9 threshold), objectives on one view object then foreign constraints, "
+        "pole / undefined-region terms, bilinear forms over two views of one container, failing first solves (uncompilable constraint, compile-time "
+        "fault) followed by a retry.  Oracle: status OPTIMAL => every constraint and every declared bound holds within max(1e-5, 10*tol) + 1e-5*scale, "
+        "judged twice: with optyx's own constraint objects evaluated on the returned values (NaN counts as violated) and with the constraints AS "
+        "WRITTEN in the spec evaluated by the harness's pure-Python semantics (violation > 1e-3).",
         "assumptions": COMMON_ASSUMPTIONS + ["scripted answers are restricted to (success, status, message, x) combinations SciPy documents or was observed to produce; fun is always the objective callback's value at x"],
     },
     "C07": {
@@ -154,8 +158,10 @@ PROPS = {
         "exhaustive_note": "sweep part: as C06 -- every (method, response class, x kind) of the scripted-peer table for the enumerated problems",
         "level": "exploration",
         "rule": _PEER_RULE + "  Oracle: whenever values and objective_value are returned, objective_value = the user's objective expression "
-        "evaluated at the returned values (1e-9 relative), keys(values) = exactly the variables the model mentions (computed from the harness's own "
-        "AST), and every scalar / vector / matrix handle retrieves its values with the declared shape and position.",
+        "evaluated at the returned values (1e-9 relative; also against the objective AS WRITTEN in the spec, evaluated by the harness's own semantics, "
+        "1e-6 relative; points where the objective overflows or exceeds 1e100 are outside its floating-point domain and are not judged), keys(values) = "
+        "exactly the variables the model mentions (computed from the harness's own AST), and every scalar / vector / matrix handle AND view (slices incl. "
+        "strided / reversed, rows, columns, diagonal, transpose, sub-matrix) retrieves its values with the declared shape and position.",
         "assumptions": COMMON_ASSUMPTIONS + ["for a fixed solver answer C07 is a pure function; the simulation contributes the answer space (arbitrary points on every termination path, the retry path, cached second solves)"],
     },
     "C12": {
